@@ -342,6 +342,21 @@ func caseCLI(t *testing.T, tp *simrt.Tape, c *Ctx) (res Result) {
 		// properties; only the tally's self-consistency is checked
 		res.stat("probe.config-outside-reference-domain", 1)
 	}
+	// compare the numbers, not the bytes: blanks and line-end style are not
+	// part of the property
+	norm := func(t string) string {
+		var ls []string
+		for _, l := range strings.Split(strings.ReplaceAll(t, "\r", ""), "\n") {
+			if f := strings.Fields(l); len(f) > 0 {
+				ls = append(ls, strings.Join(f, " "))
+			}
+		}
+		if len(ls) > nw {
+			ls = ls[len(ls)-nw:]
+		}
+		return strings.Join(ls, "\n") + "\n"
+	}
+	out = norm(out)
 	if inDomain && out != want.text(nw) {
 		what := "tallies differ from the battles the options describe"
 		var a, b, c2, d int
